@@ -1758,6 +1758,8 @@ func (n *node) spawn(factory gen.ProcessFactory, options gen.ProcessOptionsExtra
 func (n *node) unregisterProcess(p *process, reason error) {
 	n.processes.Delete(p.pid)
 	n.RouteTerminatePID(p.pid, reason)
+	// remove links and monitors this process has created
+	n.targetManager.CleanupConsumer(p.pid)
 
 	if p.application != system.Name {
 		// do not count system app processes
